@@ -58,3 +58,21 @@ impl File {
             r.is_err() ==> final(self).synced() == old(self).synced() && final(self).trace() == old(self).trace(),
     { unimplemented!() }
 }
+
+// ADVERSARIAL reads: the disk may return any bytes of the requested length (bit rot, torn
+// writes, truncation show up as arbitrary content or as an error) — contracts that hold for this
+// stub hold for every file content.
+impl File {
+    #[verifier::external_body]
+    pub fn read_exact_at_allocate(&self, size: usize, offset: u64) -> (r: Result<BytesMut, VErr>)
+        ensures r.is_ok() ==> r->Ok_0@.len() == size
+    { unimplemented!() }
+}
+impl Bytes {
+    // bytes::Bytes::split_off
+    #[verifier::external_body]
+    pub fn split_off(&mut self, at: usize) -> (r: Bytes)
+        requires at <= old(self)@.len()
+        ensures final(self)@ == old(self)@.subrange(0, at as int), r@ == old(self)@.subrange(at as int, old(self)@.len() as int)
+    { unimplemented!() }
+}
